@@ -119,6 +119,21 @@ const TOT_NUM_ACCUM_BITS: u32 = 24;
 /// Note that the lookup table size MUST be a power of 2
 const NUM_LUT_INDEX_BITS: u32 = ilog_2(lookup_tables::SINE_LUT_SIZE);
 
+#[cfg(feature = "verif-hooks")]
+impl Lfo {
+    /// `(accumulator, last_accumulator, increment, rolled_over)`
+    pub fn verif_state(&self) -> (u32, u32, u32, bool) {
+        self.phase_accumulator.verif_state()
+    }
+
+    pub fn verif_set_accumulator(&mut self, acc: u32) {
+        self.phase_accumulator.verif_set_accumulator(acc)
+    }
+
+    pub const VERIF_TOT_NUM_ACCUM_BITS: u32 = TOT_NUM_ACCUM_BITS;
+    pub const VERIF_NUM_LUT_INDEX_BITS: u32 = NUM_LUT_INDEX_BITS;
+}
+
 #[cfg(test)]
 mod tests {
     use super::*;
